@@ -173,6 +173,9 @@ func (c *ExpressionParser) matchTokensWithTypes(types ...int) bool {
 	for i, typ := range types {
 		if c.currentTokenIndex+i < len(c.initialTokens) {
 			matches = c.initialTokens[c.currentTokenIndex+i].Type() == typ
+			if !matches {
+				break
+			}
 		} else {
 			matches = false
 			break
